@@ -162,6 +162,8 @@ def has(spec, types):
 
 
 def run(res, replay=None):
+    # structural tie of the configuration classes incl. class Epoch (its copies, zero-filled rates, __eq__ / __hash__): translate the CURRENT source and re-check proofs/GenConfigsEquiv.v
+    import translate_step; (res.proof is not None) and translate_step.run(res.proof, pid=res.pid, tie='configs')
     rng = random.Random(res.seed)
     res.rule = ('demography stream: random demographies over 1-3 populations written as nested dicts, constants, '
                 'event lists (all nine public event classes), add_event in random order (with get_epoch look-ups interleaved between the additions in half of the cases), coincident dyadic times, '
